@@ -1833,6 +1833,8 @@ impl<'a, R: FileManager> FrontendCtx<'a, R> {
         q: &TsEntityName,
         file: BffFileName,
         visibility: Visibility,
+        // the file the name is written in: after `import("…").` it is not the file the name is looked up in
+        written_in: &BffFileName,
     ) -> Res<AddressedQualifiedType> {
         match q {
             TsEntityName::TsQualifiedName(ts_qualified_name) => {
@@ -1840,9 +1842,10 @@ impl<'a, R: FileManager> FrontendCtx<'a, R> {
                     &ts_qualified_name.left,
                     file.clone(),
                     visibility,
+                    written_in,
                 )?;
                 let anchor = Anchor {
-                    f: file.clone(),
+                    f: written_in.clone(),
                     s: ts_qualified_name.span(),
                 };
                 match left_part {
@@ -1862,7 +1865,7 @@ impl<'a, R: FileManager> FrontendCtx<'a, R> {
                 // is an export of the imported file
                 let addr = ModuleItemAddress::from_ident(ident, file.clone(), visibility);
                 let anchor = Anchor {
-                    f: file.clone(),
+                    f: written_in.clone(),
                     s: ident.span,
                 };
                 let type_addressed = self.get_addressed_qualified_type(&addr, &anchor)?;
@@ -1932,6 +1935,7 @@ impl<'a, R: FileManager> FrontendCtx<'a, R> {
                     &ts_qualified_name.left,
                     file.clone(),
                     visibility,
+                    &anchor.f,
                 )?;
 
                 let new_addr = match qualified_type {
